@@ -7,6 +7,7 @@ package main
 import (
 	"fmt"
 	"go/ast"
+	"go/constant"
 	"go/token"
 	"go/types"
 	"sort"
@@ -160,6 +161,12 @@ func (f *FuncCFG) isExitBlock(b *cfg.Block) bool {
 type searchOpts struct {
 	AvoidNode func(n ast.Node) bool // a block node containing a match blocks the path
 	AvoidEdge func(e Edge) bool
+	// AvoidRet: a return statement of the function itself (not of a spliced helper) blocks the path
+	// when this says so; val gives what is known on this path about a boolean or error expression
+	// (1 true / non-nil, -1 false / nil, 0 unknown).
+	AvoidRet func(rs *ast.ReturnStmt, val func(e ast.Expr) int8) bool
+	// FromEdge: the search starts on this branch edge; what the edge establishes is known from the start
+	FromEdge *Edge
 }
 
 func (f *FuncCFG) nodeBlocked(n ast.Node, o *searchOpts) bool {
@@ -247,8 +254,126 @@ func (f *FuncCFG) reach(from Point, o *searchOpts, target func(pt Point, atExit 
 		}
 		return 0
 	}
+	isBoolVar := func(e ast.Expr) types.Object {
+		o := objOfIdentRaw(f.Info, e)
+		if v, ok := o.(*types.Var); ok {
+			if bt, isB := v.Type().Underlying().(*types.Basic); isB && bt.Info()&types.IsBoolean != 0 {
+				return v
+			}
+		}
+		return nil
+	}
+	// what is known on this path about a boolean expression
+	var truth func(e ast.Expr, facts map[types.Object]bool, rets map[*region]int8) int8
+	truth = func(e ast.Expr, facts map[types.Object]bool, rets map[*region]int8) int8 {
+		e = ast.Unparen(e)
+		if tv, ok := f.Info.Types[e]; ok && tv.Value != nil && tv.Value.Kind() == constant.Bool {
+			if constant.BoolVal(tv.Value) {
+				return 1
+			}
+			return -1
+		}
+		switch x := e.(type) {
+		case *ast.Ident:
+			// a literal written by a desugaring has no type record
+			if ob := objOfIdentRaw(f.Info, x); ob == nil || ob.Parent() == types.Universe {
+				switch x.Name {
+				case "true":
+					return 1
+				case "false":
+					return -1
+				}
+			}
+			if o := isBoolVar(x); o != nil {
+				if v, has := facts[o]; has {
+					if v {
+						return 1
+					}
+					return -1
+				}
+			}
+		case *ast.UnaryExpr:
+			if x.Op == token.NOT {
+				return -truth(x.X, facts, rets)
+			}
+		case *ast.CallExpr:
+			if rg := f.regionByCall(x); rg != nil {
+				return rets[rg]
+			}
+		case *ast.BinaryExpr:
+			switch x.Op {
+			case token.LAND, token.LOR:
+				a, b := truth(x.X, facts, rets), truth(x.Y, facts, rets)
+				if x.Op == token.LOR {
+					a, b = -a, -b
+				}
+				r := int8(0)
+				if a < 0 || b < 0 {
+					r = -1
+				} else if a > 0 && b > 0 {
+					r = 1
+				}
+				if x.Op == token.LOR {
+					r = -r
+				}
+				return r
+			case token.EQL, token.NEQ:
+				var other ast.Expr
+				if isNil(f.Info, x.X) {
+					other = x.Y
+				} else if isNil(f.Info, x.Y) {
+					other = x.X
+				}
+				if other != nil {
+					v := nilness(other, facts, rets) // 1 = non-nil
+					if x.Op == token.EQL {
+						v = -v
+					}
+					return v
+				}
+			}
+		}
+		return 0
+	}
+	valueOf := func(e ast.Expr, facts map[types.Object]bool, rets map[*region]int8) int8 {
+		t := f.Info.TypeOf(e)
+		if t == nil {
+			if id, isId := ast.Unparen(e).(*ast.Ident); isId && (id.Name == "true" || id.Name == "false") {
+				return truth(e, facts, rets)
+			}
+			return 0
+		}
+		if bt, isB := t.Underlying().(*types.Basic); isB && bt.Info()&types.IsBoolean != 0 {
+			return truth(e, facts, rets)
+		}
+		if types.Identical(t, errorType) || isNil(f.Info, e) {
+			return nilness(e, facts, rets)
+		}
+		return 0
+	}
+	tracked := func(e ast.Expr) types.Object {
+		if o := isErrVar(e); o != nil {
+			return o
+		}
+		return isBoolVar(e)
+	}
 	seen := map[string]bool{}
-	queue := []item{{from.B, from.I, nil, nil, nil}}
+	var initFacts map[types.Object]bool
+	if o != nil && o.FromEdge != nil && f.noConsist == 0 {
+		initFacts = map[types.Object]bool{}
+		for _, ft := range f.EdgeFacts(o.FromEdge.From, o.FromEdge.Succ == 0) {
+			if x, nonNilOnTrue, isTest := nilTest(f.Info, ft.Atom); isTest {
+				if ob := isErrVar(x); ob != nil {
+					initFacts[ob] = nonNilOnTrue == ft.Pol
+				}
+				continue
+			}
+			if ob := isBoolVar(ft.Atom); ob != nil {
+				initFacts[ob] = ft.Pol
+			}
+		}
+	}
+	queue := []item{{from.B, from.I, nil, initFacts, nil}}
 	first := true
 	for len(queue) > 0 {
 		it := queue[0]
@@ -285,6 +410,12 @@ func (f *FuncCFG) reach(from Point, o *searchOpts, target func(pt Point, atExit 
 				blocked = true
 				break
 			}
+			if rs, isRet := n.(*ast.ReturnStmt); isRet && o != nil && o.AvoidRet != nil && f.regionOf[it.b] == nil {
+				if o.AvoidRet(rs, func(e ast.Expr) int8 { return valueOf(e, facts, rets) }) {
+					blocked = true
+					break
+				}
+			}
 			if f.noConsist == 0 {
 				// a return site of a spliced helper: what its error result is on this path
 				if rg := f.regionOf[it.b]; rg != nil {
@@ -292,12 +423,18 @@ func (f *FuncCFG) reach(from Point, o *searchOpts, target func(pt Point, atExit 
 						rt := &rg.rets[ri]
 						if rt.pt.B == it.b && rt.pt.I == i && len(rt.results) > 0 {
 							last := rt.results[len(rt.results)-1]
-							if t := f.Info.TypeOf(last); t != nil && (types.Identical(t, errorType) || isNil(f.Info, last)) {
+							isB := false
+							if t := f.Info.TypeOf(last); t != nil {
+								if bt, ok := t.Underlying().(*types.Basic); ok && bt.Info()&types.IsBoolean != 0 {
+									isB = true
+								}
+							}
+							if t := f.Info.TypeOf(last); t != nil && (isB || types.Identical(t, errorType) || isNil(f.Info, last)) {
 								cp := map[*region]int8{}
 								for k2, v2 := range rets {
 									cp[k2] = v2
 								}
-								if v := nilness(last, facts, rets); v != 0 {
+								if v := valueOf(last, facts, rets); v != 0 {
 									cp[rg] = v
 								} else {
 									delete(cp, rg)
@@ -343,12 +480,23 @@ func (f *FuncCFG) reach(from Point, o *searchOpts, target func(pt Point, atExit 
 					facts = nf
 				}
 			}
-			// `..., err := helper(...)` with the helper spliced: err is what the helper returned
-			if as, isAs := n.(*ast.AssignStmt); isAs && len(as.Rhs) == 1 && f.noConsist == 0 {
-				if c, isCall := ast.Unparen(as.Rhs[0]).(*ast.CallExpr); isCall {
-					if rg := f.regionByCall(c); rg != nil {
-						if v, has := rets[rg]; has && v != 0 {
-							if ob := isErrVar(as.Lhs[len(as.Lhs)-1]); ob != nil {
+			// `..., err := helper(...)` with the helper spliced: err is what the helper returned;
+			// `v = <expr>` with the value of <expr> known on this path: v is that
+			if as, isAs := n.(*ast.AssignStmt); isAs && f.noConsist == 0 && (as.Tok == token.ASSIGN || as.Tok == token.DEFINE) {
+				if len(as.Rhs) == 1 && len(as.Lhs) > 1 {
+					if c, isCall := ast.Unparen(as.Rhs[0]).(*ast.CallExpr); isCall {
+						if rg := f.regionByCall(c); rg != nil {
+							if v, has := rets[rg]; has && v != 0 {
+								if ob := tracked(as.Lhs[len(as.Lhs)-1]); ob != nil {
+									setFact(ob, v > 0)
+								}
+							}
+						}
+					}
+				} else if len(as.Rhs) == len(as.Lhs) {
+					for li, l := range as.Lhs {
+						if ob := tracked(l); ob != nil {
+							if v := valueOf(as.Rhs[li], facts, rets); v != 0 {
 								setFact(ob, v > 0)
 							}
 						}
@@ -814,7 +962,17 @@ func (f *FuncCFG) ErrEdges(call *ast.CallExpr) (success, failure []Edge) {
 		}
 		as, found := f.lastAssignBefore(b, len(b.Nodes)-1, v)
 		if !found || len(as.Rhs) != 1 || ast.Unparen(as.Rhs[0]) != ast.Expr(call) {
-			return
+			// ... or the tested variable stands for the call's result through the parameter of a
+			// spliced helper (`finish(store, store.Set(k, v))` testing its error parameter)
+			if found {
+				return
+			}
+			if t := f.Info.TypeOf(x); t == nil || !types.Identical(t, errorType) {
+				return
+			}
+			if re, _ := f.ResolveToCall(x, Point{b, len(b.Nodes) - 1}); re == nil || ast.Unparen(re) != ast.Expr(call) {
+				return
+			}
 		}
 		if nonNilOnTrue == ft.Pol {
 			failure = append(failure, e)
@@ -2192,6 +2350,22 @@ func (f *FuncCFG) ReturnsUnder(assign map[string]bool) map[string]bool {
 
 // IsVar: does e (evaluated at pt) denote the variable v - directly, or as a parameter of an
 // expanded helper that received v?
+// VarEdges: the branch edges on which variable v - under its own name, or as the parameter of a
+// spliced helper it was handed to - is known true / false.
+func (f *FuncCFG) VarEdges(v types.Object) (trueEdges, falseEdges []Edge) {
+	f.forEachEdgeFact(func(e Edge, b *cfg.Block, ft fact) {
+		if !f.IsVar(ft.Atom, Point{b, len(b.Nodes) - 1}, v) {
+			return
+		}
+		if ft.Pol {
+			trueEdges = append(trueEdges, e)
+		} else {
+			falseEdges = append(falseEdges, e)
+		}
+	})
+	return
+}
+
 func (f *FuncCFG) IsVar(e ast.Expr, pt Point, v types.Object) bool {
 	for steps := 0; steps < 8; steps++ {
 		o := objOfIdent(f.Info, e)
